@@ -106,6 +106,26 @@ CLAIMED = {
             "with the Python specification and the Lean column model, the listed boxes with the footprints the plane meets, outputs are tasted "
             "with box coordinates, incl. a slice above the one-megabyte threshold.",
             "Header rendering of the 2D plotfile is checked by the oracle on the real output; floats at rtol 1e-9."),
+    "C12": ("Lean 4 theorems on interleavings of tasks with disjoint path sets + exhaustive order exploration with a controlled pool",
+            "Proof: Sched.merge_run and Sched.mergeAll_run (any interleaving of any number of tasks touching pairwise disjoint paths ends in the "
+            "same file system as running them one after the other); the hypothesis is audited on the real code (sys.addaudithook: write and read "
+            "sets of the tasks of every pool call are pairwise disjoint) and every tool is run under every start order (<= 4 tasks per call, "
+            "rotations beyond) and completion order, in serial mode, and with real pools of 1/2/3/16 workers, comparing trees byte for byte and "
+            "return values bit for bit.",
+            "The model cannot exhibit OS-level scheduling or fork-time global state (chef's module globals); those are only sampled with real pools. "
+            "The contract of map/imap (results in submission order) is assumed."),
+    "C13": ("Lean 4 theorems on default output paths (POSIX path model) + write audit and fault injection at every write-side call",
+            "Proof: Paths.concat_not_inside (normpath(p)+suffix is never inside p: chef, marinate) and concat_inside_trailing_slash (the pinned "
+            "concatenation is, for every input written with a trailing slash); on the real code every invocation form is run with all inputs "
+            "hashed before and after, every write seen by sys.addaudithook checked against the allowed roots, and an OSError injected at every "
+            "open-for-write / write / mkdir call of the run, which must surface as an exception or non-zero exit.",
+            "Partial: the claim about arbitrary I/O faults rests on the enumeration over the real code (Python-level write calls; numpy/zipfile-internal writes are not intercepted); crash points between calls are not modelled."),
+    "C14": ("Lean 4 per-tool data theorems composed along operation sequences + pipeline exploration against pure operations",
+            "Proof: Writers.colander_data, combine_data, chef_data, chk_data (each tool's output record for box i is the pure operation on box i); "
+            "pipelines over {colander, combine with sibling/ancestor, chef} (all sequences of length <= 2 over kinds, sampled to length 4, plus "
+            "chk2plt sources) are run on disk with every intermediate tasted, parsed by the oracle and compared bit for bit with the composed pure "
+            "operations; the two named corollaries are explicit cases.",
+            "The induction over sequences is generic (each step refines its pure operation); header re-parsing of every writer's output is checked by the oracle on real outputs."),
 }
 
 NOT_YET = {}
